@@ -341,6 +341,12 @@ func New(cfg Config) *Sim {
 		pocketTypes.AddPocketNode(s.Keys[cfg.Servicer], logger)
 	}
 	pocketTypes.InitConfig(&pocketTypes.HostedBlockchains{M: map[string]pocketTypes.HostedBlockchain{}}, logger, sdk.DefaultTestingPocketConfig())
+	// process-global caches must not leak from a previous chain built in this process
+	sdk.VbCCache = sdk.NewCache(100)
+	if pocketTypes.GlobalSessionCache == nil {
+		pocketTypes.GlobalSessionCache = new(pocketTypes.CacheStorage)
+		pocketTypes.GlobalSessionCache.Init("", "", sdk.DefaultTestingPocketConfig().TendermintConfig.LevelDBOptions, 100, true)
+	}
 	if cfg.GenesisOverride != nil {
 		s.Genesis = cfg.GenesisOverride
 	} else {
@@ -438,9 +444,10 @@ func (s *Sim) BeginBlock(o BlockOpts) abci.ResponseBeginBlock {
 	if prop == nil && len(votes) > 0 {
 		prop = votes[0].Validator.Address
 	}
+	prev := s.LastBlockID // saveBlock advances LastBlockID to block h
 	s.saveBlock(h, t, prop, nil)
 	hdr := abci.Header{ChainID: s.Cfg.ChainID, Height: h, Time: t, ProposerAddress: prop, AppHash: s.LastHash,
-		LastBlockId: abci.BlockID{Hash: s.LastBlockID.Hash}}
+		LastBlockId: abci.BlockID{Hash: prev.Hash}}
 	res := s.App.BeginBlock(abci.RequestBeginBlock{Hash: s.blockHash(h), Header: hdr,
 		LastCommitInfo: abci.LastCommitInfo{Votes: votes}, ByzantineValidators: o.Evidence})
 	s.Height = h
